@@ -4,6 +4,8 @@
 //                real cross-shard setup: helper i's right values == helper i+1's left values for many
 //                gates / indices / multi-block widths up to the offset cap; distinctness across
 //                steps, indices and offsets
+//   c06_noreuse  real multi-batch DZKP validation (many proof batches, each drawing its PRSS indices from its own
+//                reserved range) in a debug build: the implementation's own reuse detector must stay silent
 //   c06_usedset  the debug-build detectors: same (step, index, offset) drawn twice, indexed vs sequential misuse
 // (c06_pack lives in hooks/context.rs: PrssIndex128 is visible only inside crate::protocol.)
 use std::collections::HashSet;
@@ -293,5 +295,38 @@ fn verif_c06_usedset() {
             out
         },
         exec_used,
+    );
+}
+
+// ---- no reuse across proof batches: real protocol runs with the debug-build detector live ----
+
+fn exec_noreuse(req: &str) -> String {
+    let t: Vec<&str> = req.split(' ').collect();
+    // c06.noreuse dzkp <ty> <count> <records per batch> <seed>  ==> the C03 executor on the validate_record API
+    let inner = format!("c03.validate {} {} {} {} {} -", t[2], t[3], t[4], t[5], t[6]);
+    let r = super::c03::exec_validate(&inner);
+    if r == "ok,ok,ok" { "ok".into() } else { r }
+}
+
+#[test]
+fn verif_c06_noreuse() {
+    run_suite(
+        "c06_noreuse",
+        |rng, thorough| {
+            let mut out = vec![];
+            // (type, records, records per batch): 1 .. 64 proof batches, one or two gates per batch
+            let mut cfgs = vec![
+                ("record", "b1", 64usize, 1usize), ("record", "b1", 33, 2), ("record", "ba8", 40, 4), ("record2", "ba3", 24, 2),
+                ("record", "ba64", 17, 1), ("record2", "b1", 50, 8), ("record", "ba256", 12, 1), ("record", "ba16", 128, 16),
+            ];
+            if thorough {
+                cfgs.extend_from_slice(&[("record", "b1", 256, 1), ("record2", "ba8", 200, 2), ("record", "ba32", 300, 4), ("record", "ba5", 129, 1)]);
+            }
+            for (api, ty, n, per) in cfgs {
+                out.push(format!("c06.noreuse dzkp {api} {ty} {n} {per} {}", rng.below(1 << 30)));
+            }
+            out
+        },
+        exec_noreuse,
     );
 }
